@@ -70,6 +70,35 @@ func (a *c123Actor) Receive(ctx *ReceiveContext) {
 	h.mu.Unlock()
 }
 
+// c123Grain is the grain counterpart of c123Actor (same handler instrumentation).
+type c123Grain struct{ h *c123H }
+
+func (g *c123Grain) OnActivate(context.Context, *GrainProps) error   { return nil }
+func (g *c123Grain) OnDeactivate(context.Context, *GrainProps) error { return nil }
+func (g *c123Grain) OnReceive(ctx *GrainContext) {
+	m, ok := ctx.Message().(*c123Msg)
+	if !ok {
+		ctx.Unhandled()
+		return
+	}
+	h := g.h
+	h.mu.Lock()
+	h.in++
+	if h.in > h.maxIn {
+		h.maxIn = h.in
+	}
+	if h.in > 1 && h.overlap == "" {
+		h.overlap = fmt.Sprintf("grain handler entered for s%d#%d while another invocation is open", m.sender, m.seq)
+	}
+	h.mu.Unlock()
+	vsched.Point("handler")
+	h.mu.Lock()
+	h.handled = append(h.handled, *m)
+	h.in--
+	h.mu.Unlock()
+	ctx.NoErr()
+}
+
 func c123Less(a, b any) bool {
 	x, ok1 := a.(*c123Msg)
 	y, ok2 := b.(*c123Msg)
@@ -104,6 +133,7 @@ type c123Scenario struct {
 	senders    [][]c123Msg // per client thread
 	throughput int
 	restart    bool // one more client thread calls pid.Restart concurrently
+	grain      bool // the target is a grain (TellGrain; grain turn loop and grain mailbox)
 	bound      int
 }
 
@@ -112,6 +142,8 @@ var c123ScopeFiles = []string{"/actor/dispatch_state.go", "/actor/ready_queue.go
 	"/actor/non_blocking_bounded_mailbox.go", "/actor/bounded_priority_mailbox.go", "/actor/unbounded_priority_mailbox.go",
 	"/actor/priority_intake.go", "/actor/pools.go"}
 
+var c123ScopeFuncs2 = []string{".(*grainPID).receive", ".(*grainPID).runTurn", ".(*grainPID).finishOrReclaim", ".(*grainPID).dequeueResponse", ".(*grainPID).paused"}
+
 var c123ScopeFuncs = []string{".(*PID).doReceive", ".(*PID).runTurn", ".(*PID).finishOrReclaim", ".(*PID).dispatchOne",
 	".(*PID).handleReceived", ".(*PID).Tell", ".(*PID).restartSubtree", ".(*PID).doRestart", ".(*PID).Restart"}
 
@@ -119,6 +151,16 @@ func c123Scope(file, fn string) bool {
 	for _, f := range c123ScopeFiles {
 		if strings.HasSuffix(file, f) {
 			return true
+		}
+	}
+	if strings.HasSuffix(file, "/actor/grain_mailbox.go") {
+		return true
+	}
+	if strings.HasSuffix(file, "/actor/grain_pid.go") {
+		for _, f := range c123ScopeFuncs2 {
+			if strings.Contains(fn, f) {
+				return true
+			}
 		}
 	}
 	if strings.HasSuffix(file, "/actor/pid.go") {
@@ -137,9 +179,20 @@ func c123Run(t *testing.T, sc c123Scenario, c *vsched.Chooser) (out vsched.Outco
 	h := &c123H{}
 	p := vfBubble(t, func() {
 		sys := vfNewSystem("c123", WithThroughputBudget(sc.throughput))
-		pid, err := sys.Spawn(context.Background(), "a", &c123Actor{h: h}, WithMailbox(sc.kind.mk()), WithLongLived())
-		if err != nil {
-			panic(err)
+		var pid *PID
+		var gid *GrainIdentity
+		if sc.grain {
+			id, err := sys.GrainIdentity(context.Background(), "g", func(context.Context) (Grain, error) { return &c123Grain{h: h}, nil }, WithLongLivedGrain())
+			if err != nil {
+				panic(err)
+			}
+			gid = id
+		} else {
+			p0, err := sys.Spawn(context.Background(), "a", &c123Actor{h: h}, WithMailbox(sc.kind.mk()), WithLongLived())
+			if err != nil {
+				panic(err)
+			}
+			pid = p0
 		}
 		vfSettle()
 		s := vsched.New(c)
@@ -157,7 +210,13 @@ func c123Run(t *testing.T, sc c123Scenario, c *vsched.Chooser) (out vsched.Outco
 			s.Go(fmt.Sprintf("s%d", si+1), func() {
 				for i := range msgs {
 					m := &msgs[i]
-					if err := sys.NoSender().Tell(context.Background(), pid, m); err == nil {
+					var err error
+					if sc.grain {
+						err = sys.TellGrain(context.Background(), gid, m)
+					} else {
+						err = sys.NoSender().Tell(context.Background(), pid, m)
+					}
+					if err == nil {
 						amu.Lock()
 						accepted[[2]int{m.sender, m.seq}] = true
 						amu.Unlock()
@@ -230,7 +289,11 @@ func c123Run(t *testing.T, sc c123Scenario, c *vsched.Chooser) (out vsched.Outco
 					if stalled {
 						sig = "C02:stall-workers-spin-without-processing/"
 					}
-					v = append(v, vsched.Fail(sig+sc.kind.name, "s%d#%d accepted but not handled at quiescence (mailbox len=%d isEmpty=%v schedState=%d); handled=%v; threads: %s; wedged=%q", k[0], k[1], pid.mailbox.Len(), pid.mailbox.IsEmpty(), pid.schedState.Load(), handled, s.Describe(), s.Wedged))
+					diag := ""
+					if pid != nil {
+						diag = fmt.Sprintf("mailbox len=%d isEmpty=%v schedState=%d", pid.mailbox.Len(), pid.mailbox.IsEmpty(), pid.schedState.Load())
+					}
+					v = append(v, vsched.Fail(sig+sc.kind.name, "s%d#%d accepted but not handled at quiescence (%s); handled=%v; threads: %s; wedged=%q", k[0], k[1], diag, handled, s.Describe(), s.Wedged))
 					break
 				}
 			}
@@ -275,6 +338,15 @@ func c123Run(t *testing.T, sc c123Scenario, c *vsched.Chooser) (out vsched.Outco
 func c123Scenarios() []c123Scenario {
 	var out []c123Scenario
 	r := vsched.Rep()
+	// grains: TellGrain returns only after the grain handled the message, so each sender has one
+	// message in flight at a time; two or three senders still race on the grain's mailbox/turn.
+	gk := c123Kind{name: "Grain", fifo: true}
+	out = append(out,
+		c123Scenario{name: "Grain/2s-tp1", kind: gk, grain: true, throughput: 1, bound: vsched.Pick(1, 2),
+			senders: [][]c123Msg{{{1, 1, 1}, {1, 2, 1}}, {{2, 1, 1}, {2, 2, 1}}}},
+		c123Scenario{name: "Grain/3s-tp2", kind: gk, grain: true, throughput: 2, bound: vsched.Pick(1, 2),
+			senders: [][]c123Msg{{{1, 1, 1}}, {{2, 1, 1}}, {{3, 1, 1}, {3, 2, 1}}}},
+	)
 	for _, k := range c123Kinds() {
 		pb := vsched.Pick(1, 2)
 		if k.name == "Unbounded" {
@@ -286,7 +358,7 @@ func c123Scenarios() []c123Scenario {
 			c123Scenario{name: k.name + "/1s3-tp2", kind: k, throughput: 2, bound: pb,
 				senders: [][]c123Msg{{{1, 1, 1}, {1, 2, 1}, {1, 3, 1}}, {{2, 1, 1}}}},
 		)
-		if r.Thorough() || k.name == "Unbounded" || k.name == "UnboundedFair" {
+		if r.Thorough() || k.name == "Unbounded" || k.name == "UnboundedFair" || k.name == "Bounded8" {
 			out = append(out, c123Scenario{name: k.name + "/restart", kind: k, throughput: 1, bound: 1, restart: true,
 				senders: [][]c123Msg{{{1, 1, 1}, {1, 2, 1}}, {{2, 1, 1}}}})
 		}
@@ -302,7 +374,7 @@ func c123Test(t *testing.T, prop string) {
 	var all []vsched.Scenario
 	for _, sc := range c123Scenarios() {
 		sc := sc
-		if prop == "C03" && !sc.kind.fifo {
+		if prop == "C03" && (!sc.kind.fifo || sc.grain) {
 			continue
 		}
 		all = append(all, vsched.Scenario{
